@@ -236,7 +236,11 @@ where
     } else if transfer_encoding.is_some() {
         // if a transfer-encoding was specified, then "chunked" is ALWAYS applied
         // over the message (RFC2616 #3.6)
-        Box::new(FusedReader::new(Decoder::new(source_data))) as Box<dyn Read + Send + 'static>
+        let decoder = ChunkedBodyReader {
+            decoder: Decoder::new(source_data),
+            finished: false,
+        };
+        Box::new(FusedReader::new(decoder)) as Box<dyn Read + Send + 'static>
     } else {
         // if we have neither a Content-Length nor a Transfer-Encoding,
         // assuming that we have no data
@@ -511,6 +515,40 @@ impl Drop for Request {
             if let Some(sender) = self.notify_when_responded.take() {
                 sender.send(()).unwrap();
             }
+        }
+    }
+}
+
+/// Body of a request that uses the chunked transfer coding.
+///
+/// Like `EqualReader` does for a body with a `Content-Length`, the part of the body that
+/// has not been read is skipped when the reader is destroyed, so that the next request of
+/// the connection is parsed from the right position.
+struct ChunkedBodyReader<R: Read> {
+    decoder: Decoder<R>,
+    // true once the end of the body (or an error) has been reached
+    finished: bool,
+}
+
+impl<R: Read> Read for ChunkedBodyReader<R> {
+    fn read(&mut self, buf: &mut [u8]) -> io::Result<usize> {
+        if self.finished || buf.is_empty() {
+            return Ok(0);
+        }
+
+        let result = self.decoder.read(buf);
+        if let Ok(0) | Err(_) = result {
+            self.finished = true;
+        }
+        result
+    }
+}
+
+impl<R: Read> Drop for ChunkedBodyReader<R> {
+    fn drop(&mut self) {
+        let mut buf = [0; 1024];
+        while !self.finished {
+            let _ = self.read(&mut buf);
         }
     }
 }
